@@ -107,6 +107,29 @@ theorem deepcopy_shares_data :
                                 .sv false 7 8 ], .ok 9) := by
   decide +kernel
 
+/-- a state vector (cell 2) in TOD whose covariance (cell 6, buffer 7) follows it (also labelled TOD) but was attached while
+the state was in EME2000: its private state (cell 5) and `_orb_frame` are still EME2000 — what `sv.frame = "TOD"` leaves
+behind on a state built in EME2000 -/
+def h3 : Heap :=
+  [ .buf (.init 0), .dict [("date", .tok 100), ("form", .form "cartesian"), ("frame", .frame (.reg "TOD" 0)), ("cov", .addr 6)], .sv false 0 1,
+    .buf (.init 0), .dict [("date", .tok 100), ("form", .form "cartesian"), ("frame", .frame (.reg "EME2000" 0)), ("cov", .none)], .sv false 3 4,
+    .cov 7 (.reg "TOD" 0) 5 (.reg "EME2000" 0), .buf (.init 1000) ]
+
+/-- an environment in which the rotation TOD → MOD works and TOD → EME2000 raises (observed under `eop.missing_policy =
+error`: the first reads the nutation values cached on the Date, the second needs the time-scale offsets) -/
+def envTodEme : Env := fun x y => if x = "TOD" ∧ y = "EME2000" then some .eop else none
+
+/-- OPEN finding C15-frame-change-not-atomic-with-cov: `sv.frame = "MOD"` RAISES (the covariance that has to follow cannot be
+rotated) after the state vector itself has been moved: frame label MOD over transformed values, covariance still TOD —
+the failing assignment did not leave the object in its previous frame/values, and the covariance no longer follows -/
+theorem frame_change_fails_after_state_moved :
+    setFrame h3 2 "MOD" envTodEme =
+      ([ .buf (.xform "TOD" "MOD" (.init 0)),
+         .dict [("date", .tok 100), ("form", .form "cartesian"), ("frame", .frame (.reg "MOD" 0)), ("cov", .addr 6)], .sv false 0 1,
+         .buf (.init 0), .dict [("date", .tok 100), ("form", .form "cartesian"), ("frame", .frame (.reg "EME2000" 0)), ("cov", .none)], .sv false 3 4,
+         .cov 7 (.reg "TOD" 0) 5 (.reg "EME2000" 0), .buf (.init 1000) ], .error .eop) := by
+  decide +kernel
+
 /-! ### positive witnesses for the constructor / getter / failing-setter sites (each is a defect a maintainer could
 introduce there; the correspondence run compares exactly these situations with /repo) -/
 
@@ -174,7 +197,7 @@ def h2 : Heap :=
   [ .buf (.init 0), .dict [("date", .tok 100), ("form", .form "keplerian"), ("frame", .frame (.reg "EME2000" 0))], .sv false 0 1 ]
 
 theorem failed_frame_change_from_keplerian :
-    setFrame h2 2 "ITRF" (some .eop) =
+    setFrame h2 2 "ITRF" (fun _ _ => some .eop) =
       ([ .buf (.conv "cartesian" "keplerian" (.conv "keplerian" "cartesian" (.init 0))),
          .dict [("date", .tok 100), ("form", .form "keplerian"), ("frame", .frame (.reg "EME2000" 0))], .sv false 0 1 ], .error .eop) := by
   decide +kernel
